@@ -149,6 +149,16 @@ fn state_runs(tier: Tier) -> Vec<RunCfg> {
             modes: vec![0, 1, 2, 3],
         },
         RunCfg {
+            name: "2 keys on which code-point order and UTF-16 order differ x 2 values, len<=3, fixpoint",
+            keys: vec!["\u{e000}", "\u{10000}"],
+            vals: vec![0, 1],
+            max_len: 3,
+            max_depth: None,
+            inits: vec![Init::Empty],
+            fine: false,
+            modes: vec![0, 3],
+        },
+        RunCfg {
             name: "pumped start states (rehash cycles, tombstones), depth<=2",
             keys: vec!["a", "p00", "p07", "pumped-key-on-the-heap-09-and-longer-than-thirty-two-bytes"],
             vals: vec![0, 1],
@@ -641,6 +651,7 @@ fn c15(rep: &mut Report, tier: Tier) {
     c15_pumped(rep, tier);
     c15_routes(rep, tier);
     c15_interrupted(rep);
+    c15_scalars(rep);
     if tier == Tier::Thorough {
         c15_universe(rep, tier, &[RV::num("0"), RV::num("1.0"), RV::Null, RV::str("a")], &["a", "b", "c"], 4, "rich");
     }
@@ -739,6 +750,43 @@ fn c15_routes(rep: &mut Report, tier: Tier) {
     let count = items.len();
     let t = explore::par_tally(items, |(n, keep, how), t| route_one(n, keep, how, t));
     rep.bounds["routes"] = json!({"objects": count, "peaks": sizes, "kept": [1, 3, 8, "peak/8+1"], "removal_patterns": 4});
+    rep.absorb(t);
+}
+
+/// "Scalars must be equal": every ordered pair of a list of scalars that are easily confused
+/// (numerically equal spellings, signed zeros, a number and the string spelling it, the literals
+/// and the strings naming them), bare, as an array item, as an object member and as the values of
+/// a duplicated key: unordered equality holds exactly when the two scalars are the same scalar.
+fn c15_scalars(rep: &mut Report) {
+    let nums = ["0", "-0", "0.0", "-0.0", "0e0", "1", "1.0", "1e0", "10", "1e1", "1E1", "100e-1", "-1", "9007199254740993", "9007199254740992", "1.7976931348623157e308", "17976931348623157e292"];
+    let mut scalars: Vec<RV> = vec![RV::Null, RV::Bool(true), RV::Bool(false)];
+    scalars.extend(nums.iter().map(|n| RV::num(n)));
+    scalars.extend(["", "0", "-0", "1", "null", "true", "false", "a", "A", "a\u{0}", "\u{e9}", "e\u{301}"].iter().map(|s| RV::str(s)));
+    let n = scalars.len();
+    let mut t = Tally::new();
+    for (i, x) in scalars.iter().enumerate() {
+        for (j, y) in scalars.iter().enumerate() {
+            let same = i == j;
+            let shapes: Vec<(&str, RV, RV, bool)> = vec![
+                ("bare", x.clone(), y.clone(), same),
+                ("array item", RV::Arr(vec![RV::Null, x.clone()]), RV::Arr(vec![RV::Null, y.clone()]), same),
+                ("member", RV::Obj(vec![("k".into(), x.clone()), ("l".into(), RV::Null)]), RV::Obj(vec![("l".into(), RV::Null), ("k".into(), y.clone())]), same),
+                ("values of a duplicated key, swapped", RV::Obj(vec![("a".into(), x.clone()), ("a".into(), y.clone())]), RV::Obj(vec![("a".into(), y.clone()), ("a".into(), x.clone())]), true),
+                ("values of a duplicated key, one repeated", RV::Obj(vec![("a".into(), x.clone()), ("a".into(), x.clone())]), RV::Obj(vec![("a".into(), x.clone()), ("a".into(), y.clone())]), same),
+            ];
+            for (what, a, b, want) in shapes {
+                t.evals += 1;
+                let (va, vb) = (bridge::to_value(&a), bridge::to_value(&b));
+                let got = explore::guard(|| (va.unordered_eq(&vb), vb.unordered_eq(&va)));
+                if got != Ok((want, want)) {
+                    t.violation("", format!("{what}: unordered_eq({}, {}) = {got:?}, expected {want}", a.show(), b.show()), json!({"kind": "unordered-pair", "a": a.show(), "b": b.show()}));
+                }
+            }
+        }
+        t.nontrivial(&("scalar", i));
+    }
+    t.outcome("scalar pairs");
+    rep.bounds["scalars"] = json!({"scalars": n, "ordered_pairs": n * n, "shapes": 5});
     rep.absorb(t);
 }
 
